@@ -84,19 +84,38 @@ class QSpec:
         for b, ls, lines, name in self.members:
             if self.axis == 0:
                 ncols = len(self.opp)
-                cols = [np.array([ln[j] for ln in lines], dtype=np.int64) for j in range(ncols)]
+                cols = [_typed([ln[j] for ln in lines]) for j in range(ncols)]
                 index, columns = ls, self.opp
             else:
-                cols = [np.array(ln, dtype=np.int64) for ln in lines]
+                cols = [_typed(ln) for ln in lines]
                 index, columns = self.opp, ls
-            layouts = list(zoo.layouts_for([np.int64] * len(cols))) if cols else [()]
+            layouts = list(zoo.layouts_for([c.dtype for c in cols])) if cols else [()]
             layout = layouts[rng.randrange(len(layouts))] if rng is not None else layouts[0]
             f = zoo.frame_from_columns(cols, layout, index=sf.Index(index), columns=sf.Index(columns), name=name)
             out.append((b, f))
         return out
 
 
-def make_spec(axis, retain, sizes, n_opp, share_labels=False, int_labels=False):
+def _typed(values):
+    """1-D array of one member's cells: int64 for ints, NumPy's natural dtype for str / bool / float cells."""
+    if all(isinstance(v, int) and not isinstance(v, bool) for v in values):
+        return np.array(values, dtype=np.int64)
+    return np.array(values)
+
+
+_CELL = {'int': lambda c: c, 'str': lambda c: f's{c}', 'bool': lambda c: c % 3 == 0, 'float': lambda c: c + 0.5}
+# members whose dtypes NumPy cannot combine losslessly: the concatenation must resolve to object and keep every cell's class
+MIXED = [((2, 2, 1), ('int', 'str', 'bool')), ((2, 1), ('bool', 'int')), ((1, 2), ('float', 'str')), ((2, 2), ('bool', 'str')), ((1, 1, 2), ('str', 'int', 'str'))]
+
+
+def mixed_specs(ctx):
+    for sizes, kinds in (MIXED[:3] if ctx.tier == 'quick' else MIXED):
+        for axis in (0, 1):
+            for retain in (False, True):
+                yield make_spec(axis, retain, sizes, 2, kinds=kinds)
+
+
+def make_spec(axis, retain, sizes, n_opp, share_labels=False, int_labels=False, kinds=None):
     members = []
     cell = 10
     k = 0
@@ -110,11 +129,13 @@ def make_spec(axis, retain, sizes, n_opp, share_labels=False, int_labels=False):
             k += 1
         lines = []
         for j in range(size):
-            lines.append(list(range(cell, cell + n_opp)))
+            lines.append([_CELL[kinds[i] if kinds else 'int'](c) for c in range(cell, cell + n_opp)])
             cell += n_opp
         members.append((f'f{i}', ls, lines, f'f{i}'))
     opp = [f'c{j}' for j in range(n_opp)]
-    return QSpec(axis, retain, members, opp)
+    spec = QSpec(axis, retain, members, opp)
+    spec.kinds = kinds
+    return spec
 
 
 def canon(r, axis):
@@ -303,6 +324,7 @@ def iloc_cases(ctx):
                 share = retain and (sum(sizes) % 2 == 0)
                 specs.append(make_spec(axis, retain, sizes, n_opp=2 + (len(sizes) % 2), share_labels=share,
                                        int_labels=(len(sizes) == 2)))
+    specs += list(mixed_specs(ctx))
     per_spec = ctx.n(48, 500)
     for spec in specs:
         n = spec.n()
@@ -403,13 +425,13 @@ def small_specs(ctx, quick, more, with_empty=False):
 
 
 def spec_key(spec):
-    return f'{spec.axis}{spec.retain}{[len(m[1]) for m in spec.members]}{spec.members[0][1][:1]}'
+    return f'{spec.axis}{spec.retain}{[len(m[1]) for m in spec.members]}{spec.members[0][1][:1]}{getattr(spec, "kinds", None)}'
 
 
 # ---------------------------------------------------------------------------- labels / shape / export
 def labels_cases(ctx):
     import static_frame as sf
-    specs = list(small_specs(ctx, SIZES_QUICK, SIZES_MORE, with_empty=True))
+    specs = list(small_specs(ctx, SIZES_QUICK, SIZES_MORE, with_empty=True)) + list(mixed_specs(ctx))
     # members whose own labels collide: legal only with retained labels
     for axis in (0, 1):
         for retain in (False, True):
@@ -465,8 +487,9 @@ def labels_cases(ctx):
             pf = None
             if name == 'to_frame' and r is not None:
                 try:
-                    if q.values.tolist() != r.values.tolist():
-                        pf = 'quilt.values != quilt.to_frame().values'
+                    cls = lambda a: [[(type(x).__name__, x) for x in row] for row in a.tolist()]
+                    if cls(q.values) != cls(r.values):
+                        pf = 'quilt.values != quilt.to_frame().values (values or element classes)'
                 except Exception as e:  # noqa
                     pf = f'quilt.values raised {type(e).__name__}'
             ctx.count('export:' + name)
@@ -596,7 +619,7 @@ def loc_cases(ctx):
 def iter_cases(ctx):
     import static_frame as sf
     pair = 'list_eqb (pair_eqb val_eqb vlist_eqb)'
-    for spec in small_specs(ctx, [(2, 2, 1), (3,), (2, 1)], [(1, 1, 1, 1), (1, 2), (3, 2)]):
+    for spec in itertools.chain(small_specs(ctx, [(2, 2, 1), (3,), (2, 1)], [(1, 1, 1, 1), (1, 2), (3, 2)]), mixed_specs(ctx)):
         q, frames = make_quilt(spec, ctx.rng)
         qlit = spec.coq()
         along = 1 if spec.axis == 0 else 0       # iter_*(axis=1) walks rows, axis=0 walks columns
@@ -671,14 +694,14 @@ def window_keys_py(n, size, step, label_shift, start_shift, size_increment):
 def window_cases(ctx):
     grid = list(itertools.product((1, 2, 3), (1, 2, 0), (True, False), (0, -1, 1), (0, -1, 1, 2), (0, 1)))
     grid += [(0, 1, True, 0, 0, 0), (2, -1, True, 0, 0, 0), (2, 1, True, 0, 9, 0), (2, 1, False, 0, 0, -1)]
-    for spec in small_specs(ctx, [(2, 2, 1), (3,), (2, 1)], [(1, 1, 1, 1), (1, 2), (3, 2)]):
+    for spec in itertools.chain(small_specs(ctx, [(2, 2, 1), (3,), (2, 1)], [(1, 1, 1, 1), (1, 2), (3, 2)]), mixed_specs(ctx)):
         q, frames = make_quilt(spec, ctx.rng)
         qlit = spec.coq()
         n = spec.n()
         params = grid if len(grid) <= ctx.n(18, 100) else ctx.rng.sample(grid, ctx.n(18, 100))
         for j, (size, step, sized, lshift, sshift, sinc) in enumerate(params):
             for along_sel in ((True, False) if j % 4 == 0 else (True,)):
-                as_array = (j % 3 == 1)
+                as_array = (j % 3 == 1) or (bool(getattr(spec, 'kinds', None)) and j % 2 == 0)   # mixed dtypes: Quilt._extract_array must resolve, not re-type
                 ax = spec.axis if along_sel else 1 - spec.axis
                 kw = dict(size=size, step=step, axis=ax, window_sized=sized, label_shift=lshift, start_shift=sshift, size_increment=sinc)
                 name = 'iter_window_array_items' if as_array else 'iter_window_items'
@@ -971,6 +994,10 @@ def batch_ops():
     add('apply(values[0])', lambda b: b.apply(lambda f: f.values[0]), lambda c: c.values[0])
     add('apply(size)', lambda b: b.apply(lambda f: int(f.size)), lambda c: int(c.size))
     add('apply_items(rename(label))', lambda b: b.apply_items(lambda l, f: f.rename(l + '!')), lambda l, c: c.rename(l + '!'), items=True)
+    add('apply_items(name=(label, shape))', lambda b: b.apply_items(lambda l, f: f.rename((str(l), f.shape))), lambda l, c: c.rename((str(l), c.shape)), items=True)
+    add('apply_items(label:size)', lambda b: b.apply_items(lambda l, f: f'{l}:{f.size}'), lambda l, c: f'{l}:{c.size}', items=True)
+    add('apply_items_except(label:size if r1, KeyError)', lambda b: b.apply_items_except(lambda l, f: f'{l}:{f.loc["r1"].size}', KeyError),
+        lambda l, c: f'{l}:{c.loc["r1"].size}', catches=['KeyError'], items=True)
     add("apply_except(loc['r1'], KeyError)", lambda b: b.apply_except(lambda f: f.loc['r1'], KeyError), lambda c: c.loc['r1'], catches=['KeyError'])
     add('apply_except(iloc[2], IndexError)', lambda b: b.apply_except(lambda f: f.iloc[2], IndexError), lambda c: c.iloc[2], catches=['IndexError'])
     add("apply_items_except(loc['r0'], KeyError)", lambda b: b.apply_items_except(lambda l, f: f.loc['r0'].rename(l), KeyError),
@@ -991,7 +1018,7 @@ def batch_frame_sets():
     def fr(name, index, rows, columns=('c0', 'c1')):
         return sf.Frame.from_records(rows, index=index, columns=columns, name=name)
     nan = float('nan')
-    return {
+    sets = {
         'ragged-int': [fr('f0', ('r0', 'r1'), [[10, 11], [12, 13]]), fr('f1', ('r1', 'r2', 'r3'), [[14, 15], [16, 17], [18, 19]]), fr('f2', ('r0',), [[20, 21]])],
         'aligned-int': [fr('a', ('r0', 'r1'), [[10, 11], [12, 13]]), fr('b', ('r0', 'r1'), [[14, 15], [16, 17]]), fr('c', ('r0', 'r1'), [[18, 19], [12, 10]]),
                         fr('d', ('r0', 'r1'), [[1, 2], [3, 4]])],
@@ -999,6 +1026,12 @@ def batch_frame_sets():
         'single': [fr('only', ('r0', 'r1', 'r2'), [[10, 11], [12, 13], [14, 15]])],
         'int-labels': [fr(1, ('r0', 'r1'), [[10, 11], [12, 13]]), fr(2, ('r0', 'r1'), [[14, 15], [16, 17]])],
     }
+    out = {k: [(f.name, f) for f in v] for k, v in sets.items()}
+    # Batches whose containers are NOT named after their labels (Bus.from_items / Batch(items) allow it)
+    out['unnamed'] = [(lab, f.rename(None)) for lab, f in zip(('p', 'q', 'r'), sets['ragged-int'])]
+    out['swapped-names'] = [(lab, f) for lab, f in zip(('f2', 'f0', 'f1'), sets['ragged-int'])]
+    out['same-name'] = [(lab, f.rename('x')) for lab, f in zip(('u', 'v', 'w', 'z'), sets['aligned-int'])]
+    return out
 
 
 def batch_cases(ctx):
@@ -1010,22 +1043,40 @@ def batch_cases(ctx):
     chains += ctx.rng.sample(pairs, ctx.n(40, 500))
     for _ in range(ctx.n(30, 350)):
         chains.append([ctx.rng.randrange(len(ops)) for _ in range(3)])
+    # label-dependent functions, alone and after steps that change the containers' names, on every kind of Batch
+    by_desc = {op['desc']: i for i, op in enumerate(ops)}
+    label_ops = [by_desc[d] for d in ('apply_items(rename(label))', 'apply_items(name=(label, shape))', 'apply_items(label:size)',
+                                     'apply_items_except(label:size if r1, KeyError)', "apply_items_except(loc['r0'], KeyError)")]
+    renamers = [by_desc[d] for d in ("['c0']", 'iloc[0]', 'sum()', 'iloc[-1:]', 'T', 'apply(values)')]
+    label_chains = [[lo] for lo in label_ops] + [[rn, lo] for rn in renamers for lo in label_ops]
+    if ctx.tier == 'quick':
+        label_chains = label_chains[:len(label_ops)] + ctx.rng.sample(label_chains[len(label_ops):], 12)
+    n_label = len(label_chains) * 2
+    chains = [c for c in label_chains for _ in (0, 1)] + chains
     variants = [dict(), dict(max_workers=2, use_threads=True), dict(max_workers=3, use_threads=True, chunksize=2)]
     set_names = sorted(sets)
+    named_differently = ['unnamed', 'swapped-names', 'same-name']
     for ci, chain in enumerate(chains):
         sname = set_names[ci % len(set_names)] if len(chain) > 1 else None
-        for sn in ([sname] if sname else (set_names if ctx.tier != 'quick' else ['ragged-int', 'float-nan', 'aligned-int'])):
-            frames = sets[sn]
+        if ci < n_label:
+            todo = named_differently if ci % 2 else [named_differently[(ci // 2) % 3], 'ragged-int']
+        else:
+            todo = [sname] if sname else (set_names if ctx.tier != 'quick' else ['ragged-int', 'float-nan', 'aligned-int', 'unnamed'])
+        for sn in todo:
+            pairs_ = sets[sn]
+            frames = [f for _, f in pairs_]
             kw = variants[ci % len(variants)] if any(ops[i]['catches'] is None for i in chain) else variants[ci % 2]
+            if ci < n_label:
+                kw = variants[1 + (ci // 2) % 2] if ci % 2 == 0 else variants[(ci // 2) % 3]
             if kw.get('chunksize', 1) != 1 and any(ops[i]['catches'] for i in chain):
                 kw = variants[1]
-            if isinstance(frames[0].name, int) and any('rename(l' in ops[i]['desc'] or 'rename(label' in ops[i]['desc'] for i in chain):
+            if isinstance(pairs_[0][0], int) and any('rename(l' in ops[i]['desc'] or 'rename(label' in ops[i]['desc'] for i in chain):
                 continue
             # ---- the label-wise reference with the real methods, and the graph of every operation on the way
             #      (twice: S with the public operation, M with the exact call Batch._apply_attr makes)
             def reference(which):
                 tables = [[] for _ in chain]
-                alive = [(f.name, f) for f in frames]
+                alive = list(pairs_)
                 series_kwargs = False
                 failed = False
                 for k, oi in enumerate(chain):
@@ -1049,7 +1100,7 @@ def batch_cases(ctx):
             tables_m, _, _, _ = reference('impl')
             # ---- the Batch
             def run():
-                b = sf.Batch.from_frames(frames, name='bn', **kw)
+                b = sf.Batch(iter(pairs_), name='bn', **kw)
                 for oi in chain:
                     b = ops[oi]['batch'](b)
                 return b
@@ -1069,12 +1120,12 @@ def batch_cases(ctx):
                     else:
                         stages.append(f'SApply {t}')
                 return lit.lst(stages)
-            items = lit.lst([f'({lit.val(f.name)}, {cont_lit(f)[0]})' for f in frames])
+            items = lit.lst([f'({lit.val(lab)}, {cont_lit(f)[0]})' for lab, f in pairs_])
             st, st_m = stages_of(tables), stages_of(tables_m)
             btags = {'op': 'batch', 'depth': len(chain), 'pool': bool(kw)}
             if series_kwargs:
                 btags['finding'] = 'C19-batch-series-kwargs' 
-            desc = {'call': "sf.Batch.from_frames(frames, name='bn', **kw)" + ''.join(f' |> {ops[i]["desc"]}' for i in chain) + ' ; list(batch.items())',
+            desc = {'call': "sf.Batch(iter(label_frame_pairs), name='bn', **kw)" + ''.join(f' |> {ops[i]["desc"]}' for i in chain) + ' ; list(batch.items())',
                     'frames': sn, 'kw': kw, 'chain': [ops[i]['desc'] for i in chain], 'observed': _jsonable(js)}
             ctx.count(f'batch:depth{len(chain)}', f'batch:frames={sn}', 'batch:pool' if kw else 'batch:sequential',
                       'batch-out:' + ('items' if 'items' in js else js['error']))
